@@ -229,8 +229,11 @@ impl<A: G, B: G, C: G> G for (A, B, C) {
 }
 impl G for serde_bytes::ByteBuf {
     fn g(src: &mut Src, d: usize) -> Self {
-        let n = glen(src, d) * 3;
-        serde_bytes::ByteBuf::from(src.take(n))
+        // mostly short; sometimes a length at or around a multiple of 32/64 (chunked writers)
+        let n = if src.chance(40) { *src.pick(&[31usize, 32, 33, 63, 64, 65, 127, 128, 129, 192, 256]) } else { glen(src, d) * 3 };
+        let mut v = src.take(n);
+        v.resize(n, 7);
+        serde_bytes::ByteBuf::from(v)
     }
 }
 
@@ -571,7 +574,7 @@ impl G for Disp {
                     2 => "a".to_string(),
                     3 => "\"".to_string(),
                     4 => "\\\n".to_string(),
-                    5 => "x".repeat(*src.pick(&[31usize, 32, 33, 64, 100])),
+                    5 => "x".repeat(*src.pick(&[31usize, 32, 33, 64, 100, 255, 256, 257, 300, 1024, 4096])),
                     _ => G::g(src, d),
                 })
                 .collect(),
